@@ -338,7 +338,9 @@ func (w *Worker) convert(s *State, v Value, from, to types.Type) Value {
 			if eb, ok := sl.Elem().Underlying().(*types.Basic); ok && eb.Kind() == types.Uint8 {
 				t := w.term(v)
 				if !t.Const {
-					panic(unsupported{"[]byte(symbolic string)"})
+					// opaque bytes of a symbolic string: only hashing stubs consume them
+					arr := &ArrayV{E: []Value{OpaqueV{Tag: "symbytes", X: t}}}
+					return SliceV{s.newObj("array", arr), 0, 1, 1}
 				}
 				arr := &ArrayV{make([]Value, len(t.S))}
 				for i := range arr.E {
